@@ -1,6 +1,5 @@
-(* C42 — proofs about the R instance of the polymorphic model PP.Model.C42. *)
+(* C42 — proofs about the R instance of the polymorphic model PP.Model.C42 (algebra). *)
 From Coq Require Import List Reals Lra Lia Arith Bool.
-From Coquelicot Require Import Coquelicot.
 Import ListNotations.
 From PP Require Import Model.C42.
 Open Scope R_scope.
@@ -242,95 +241,4 @@ Proof.
   destruct (Rlt_dec (1 - eps) s0) as [Ha|Ha]; destruct (Rlt_dec (1 - eps) (1 - s0)) as [Hb|Hb];
     cbn [filter length Nat.ltb Nat.leb]; try reflexivity.
   lra.
-Qed.
-
-(* ------------------------------------------------------------ list indexing helpers *)
-Lemma nth_map2_seq {A B} (g : nat -> A -> B) (l : list A) : forall a i d d', (i < length l)%nat ->
-  nth i (map2 g (seq a (length l)) l) d' = g (a + i)%nat (nth i l d).
-Proof.
-  induction l as [|x l IH]; intros a i d d' Hi; [cbn in Hi; lia|].
-  cbn [length seq map2]. destruct i as [|i]; cbn [nth].
-  - f_equal. lia.
-  - rewrite (IH (S a) i d d') by (cbn in Hi; lia). f_equal. lia.
-Qed.
-
-Lemma nth_map_seq {B} (h : nat -> B) n j d : (j < n)%nat -> nth j (map h (seq 0 n)) d = h j.
-Proof.
-  intros Hj. rewrite (nth_indep _ d (h 0%nat)) by (rewrite map_length, seq_length; lia).
-  rewrite map_nth, seq_nth by lia. reflexivity.
-Qed.
-
-(* entries of the matrix the chain rule applies *)
-Lemma dxn_entry x i j : (i < length x)%nat -> (j < length x)%nat ->
-  nth j (nth i (dxnR x) []) 0 =
-  (if Nat.eqb i j then 1 else 0) / rsum x - nth i x 0 / (rsum x * rsum x).
-Proof.
-  intros Hi Hj. unfold dxnR, dxn.
-  rewrite (nth_map2_seq _ x 0%nat i 0 []) by exact Hi. cbn [plus].
-  rewrite nth_map_seq by exact Hj. rewrite Rmult_1_r. reflexivity.
-Qed.
-
-(* x with e added to component j *)
-Fixpoint add_at (j : nat) (e : R) (x : list R) : list R :=
-  match x, j with
-  | [], _ => []
-  | a :: r, O => (a + e) :: r
-  | a :: r, S j' => a :: add_at j' e r
-  end.
-
-Lemma add_at_sum x : forall j e, (j < length x)%nat -> rsum (add_at j e x) = rsum x + e.
-Proof.
-  induction x as [|a x IH]; intros j e Hj; [cbn in Hj; lia|].
-  destruct j as [|j]; cbn [add_at tsum]; [ring|]. rewrite IH by (cbn in Hj; lia). ring.
-Qed.
-
-Lemma add_at_nth x : forall i j e, (j < length x)%nat ->
-  nth i (add_at j e x) 0 = nth i x 0 + (if Nat.eqb i j then e else 0).
-Proof.
-  induction x as [|a x IH]; intros i j e Hj; [cbn in Hj; lia|].
-  destruct j as [|j]; destruct i as [|i]; cbn [add_at nth Nat.eqb]; try ring.
-  apply IH. cbn in Hj. lia.
-Qed.
-
-Lemma add_at_length x : forall j e, length (add_at j e x) = length x.
-Proof. induction x as [|a x IH]; intros [|j] e; cbn; try reflexivity. rewrite IH. reflexivity. Qed.
-
-Lemma normalize_nth l i : (i < length l)%nat -> nth i (normalizeR l) 0 = nth i l 0 / rsum l.
-Proof.
-  intros Hi. unfold normalizeR, normalize.
-  rewrite (nth_indep _ 0 (0 / rsum l)) by (rewrite map_length; exact Hi).
-  rewrite (map_nth (fun a => a / rsum l)). reflexivity.
-Qed.
-
-(* THEOREM 4a: entry (i,j) of the matrix is the partial derivative of the i-th normalised
-   fraction with respect to the j-th extended fraction *)
-Lemma dxn_is_jacobian x i j : (i < length x)%nat -> (j < length x)%nat -> rsum x <> 0 ->
-  is_derive (fun e => nth i (normalizeR (add_at j e x)) 0) 0 (nth j (nth i (dxnR x) []) 0).
-Proof.
-  intros Hi Hj HS. rewrite (dxn_entry x i j Hi Hj).
-  set (S := rsum x) in *. set (xi := nth i x 0).
-  apply (is_derive_ext (fun e => (xi + (if Nat.eqb i j then e else 0)) / (S + e))).
-  { intros e. rewrite normalize_nth by (rewrite add_at_length; exact Hi).
-    rewrite add_at_nth, add_at_sum by exact Hj. reflexivity. }
-  destruct (Nat.eqb i j).
-  - auto_derive; [lra|field; lra].
-  - auto_derive; [lra|field; lra].
-Qed.
-
-(* THEOREM 4b: what the code returns: leading derivatives untouched, the last n replaced by
-   gradient x Jacobian, i.e. entry j = sum_i g_i * d(xn_i)/d(x_j) *)
-Lemma chainrule_output df x : (length x <= length df)%nat ->
-  let n := length x in let k := (length df - n)%nat in
-  chainruleR df x =
-  inr (firstn k df ++
-       map (fun j => rsum (map2 (fun gi row => gi * nth j row 0) (skipn k df) (dxnR x))) (seq 0 n)).
-Proof.
-  intros H. cbn zeta. unfold chainruleR, chainrule.
-  destruct (Nat.ltb_spec (length df) (length x)); [lia|]. reflexivity.
-Qed.
-
-Lemma chainrule_short df x : (length df < length x)%nat -> chainruleR df x = inl ValueErr.
-Proof.
-  intros H. unfold chainruleR, chainrule.
-  destruct (Nat.ltb_spec (length df) (length x)); [reflexivity|lia].
 Qed.
